@@ -1,6 +1,6 @@
 (** Property C19 — the theorems the check counts as obligations.  Nothing but
     statements closed by [exact] and [Print Assumptions]. *)
-From HS Require Import Base.Prelude C19.Model C19.MQ C19.MQOrder C19.TopicModel C19.Topic C19.StreamModel C19.Assign C19.Stream.
+From HS Require Import Base.Prelude C19.Model C19.MQ C19.MQOrder C19.TopicModel C19.Topic C19.StreamModel C19.Assign C19.Stream C19.OutboxModel C19.Outbox.
 From Coq Require Import Sorting.Sorted.
 Local Open Scope Z_scope.
 
@@ -172,3 +172,29 @@ Theorem c19_group_committed_monotone_partial : forall cfg st o c pid,
   coff (snd st) c pid <= coff (snd (fst (sstep cfg st o))) c pid.
 Proof. exact group_committed_monotone_partial. Qed.
 Print Assumptions c19_group_committed_monotone_partial.
+
+(** Outbox relay: written entries are never lost (marked relayed implies the
+    relay event was returned to the engine, or a suspended poll still holds it),
+    for all interleavings of writes, primes and overlapping poll cycles in which
+    every poll generator has its own handle (satisfiable: Outbox.outbox_wf_example). *)
+Theorem c19_outbox_no_loss : forall cfg ops,
+  owf_ops cfg outbox_init ops -> noloss (orun cfg ops).
+Proof. exact outbox_no_loss. Qed.
+Print Assumptions c19_outbox_no_loss.
+
+(** Outbox relay: a suspended poll returns one relay event per processed entry,
+    stamped with the clock at the moment it returns. *)
+Theorem c19_outbox_poll_completes : forall cfg s h rest d ops now,
+  lookup h (ob_frames s) = Some (rest, d) ->
+  Forall (fun o => ohandle o <> Some h) ops ->
+  let s' := fst (orun_from cfg s ops) in
+  let r := ostep cfg s' (OPollResume h now) in
+  match rest with
+  | [] => (forall id, In id d -> In (ORelay id now) (snd r)) /\
+          (forall id t, In (ORelay id t) (snd r) -> In id d /\ t = now) /\
+          lookup h (ob_frames (fst r)) = None
+  | id :: rest' => snd r = [OYield] /\ lookup h (ob_frames (fst r)) = Some (rest', d ++ [id]) /\
+                   flag (fst r) id = Nat.ltb (Z.to_nat (id - 1)) (length (ob_flags s'))
+  end.
+Proof. exact outbox_poll_completes. Qed.
+Print Assumptions c19_outbox_poll_completes.
